@@ -56,6 +56,11 @@ class World:
             sigs[self.keys.pub[int(k)]] = ent
             self.seen.setdefault(int(k), []).append((b, copy.deepcopy(ent)))
         if decoys:
+            for pub, ent in list(sigs.items()):       # the same valid entry again under other spellings of the key: never counts twice
+                if r.random() < 0.35:
+                    for alt in {pub.upper(), pub[:20] + pub[20:].upper(), " " + pub}:
+                        if alt != pub and r.random() < 0.7:
+                            sigs[alt] = copy.deepcopy(ent)
             for k, lst in self.seen.items():
                 others = [e for (bb, e) in lst if bb != b]
                 if self.keys.pub[k] not in sigs and others and r.random() < 0.6:
